@@ -16,6 +16,20 @@ CHECKS = {
         note=TRUST + "; pigeonhole (injective on range(n) => bijective) not re-proved; callee treated as a function of its arguments",
         technique="contract-based deductive verification (AST symbolic execution -> z3 VCs, loop invariants) + exhaustive ground evaluation of tables",
     ),
+    "C17": dict(
+        category="proof",
+        text="_select_format_module is verified for an arbitrary registry (any number of modules, patterns and operations; loop invariant 'no earlier module qualifies') and, for an explicit format, on the real registry: result determined by base name and fmt, explicit format wins without consulting patterns, FileFormatError otherwise, no file-system access. Registry order, patterns, operations, the CLI description and all declared attribute names of the 25 modules are decided by exhaustive evaluation; guaranteed attributes by a must-define analysis where the returned dict is a literal, otherwise only by the bounded corpus check (open known finding: orcalog on a non-ORCA *.out file).",
+        design_ref="DESIGN.md 6/C17",
+        note=TRUST + "; fnmatch/basename pure; S4 (guaranteed attributes) only partly decidable statically; S5 is C08",
+        technique="contract-based deductive verification (loop invariant over a generic registry, z3) + exhaustive ground evaluation of the registry and declared lists + bounded corpus loads",
+    ),
+    "C18": dict(
+        category="proof",
+        text="convert() and main() are verified by symbolic execution with the four API functions havoc'ed: the only effects are np.seterr(divide/over/invalid='raise'), load_X(input, fmt=infmt) and dump_X(<what was loaded>, output, allow_changes=..., fmt=outfmt) with X selected by --many, every API exception propagates, nothing is swallowed; the real ArgumentParser is enumerated over its whole option structure. Byte equality with the API then follows from C16 (determinism); the subprocess comparison is a bounded cross-check.",
+        design_ref="DESIGN.md 6/C18",
+        note=TRUST + "; CPython exit-status behaviour and argparse internals trusted",
+        technique="contract-based deductive verification (event-trace contract by AST symbolic execution) + exhaustive enumeration of the real parser + bounded subprocess comparison",
+    ),
     "C19": dict(
         category="proof",
         text="write_input_base, the Gaussian/ORCA write_input functions and both default_atom_line functions are verified at field level for all molecules (any number of atoms), all charge/spin settings and user overrides: one geometry line per atom in order produced by the atom-line callback of that atom, element symbol and coordinates divided by the CODATA angstrom factor, multiplicity = |round(spinpol)|+1, charge rounded to the nearest integer, documented defaults and run-type tables, user/keyword fields last. Text rendering (str.format, f-strings) is trusted.",
